@@ -5,14 +5,25 @@ NOT_YET.update({
 })
 
 check("C20",
-      "Lean 4 proof over translated macro bodies (generic in width) + differential run against libks",
-      "Proof: the six *_OVERFLOW macro bodies of libks/arithmetic.c are translated on every run into Lean terms over Int with explicit "
-      "trap/UB outcomes; theorems generic in the bit width show each equals the mathematical spec (overflow iff unrepresentable, exact value "
-      "otherwise, never trap/UB) and are instantiated for all 15 functions. The generated model, the real fallbacks and the real builtins are "
-      "run on the boundary cross-product and a seeded sample and compared case by case.",
-      "Trusted: Lean kernel; the C-expression translator; __builtin_*_overflow semantics = CArith.spec (cross-checked); LP64. "
-      "Partial: only the checked-arithmetic half of the property is modelled and proved. The map / vector / buffer refinement is not built: libks/map.c is "
-      "not checked at all, vectors and buffers only through the arena harness of C19 (contents against expectations, no theorem). See DESIGN 11.3.",
+      "Lean 4 proof: refinement of the hash map to an insertion-ordered association list for every hash function (invariant by induction over operations), "
+      "of vector/buffer to list/byte string, width-generic theorems over translated overflow macros; differential run of the real libks in-process (ASan)",
+      "Proof. Map: Robsd.Map transcribes libks/map.c (HASH_ADD, HASH_EXPAND_BUCKETS with its expand_mult/ideal/nonideal/ineff/noexpand bookkeeping, HASH_FIND, "
+      "HASH_DELETE, map_iterate, HASH_JEN) parametric in the hash function; map_refines: every operation sequence that inserts a key only while absent yields the "
+      "outputs of an insertion-ordered association list, so bucket placement, expansion and the noexpand state are unobservable; iterate_next/"
+      "iterate_while_removing: a whole iteration returns every live entry once, in insertion order, never touching a freed entry, also when the loop body removes "
+      "the current entry; value_address_stable; inv_reachable (each bucket chain holds exactly the live entries its index selects, once; counts agree). "
+      "Vector/buffer: Robsd.Vec/Robsd.Buf transcribe vector_reserve1/buffer_reserve (doubling loop, all overflow exits) and the operations; vector_refines/"
+      "buffer_refines (= plain list / byte string, capacity unobservable, len <= capacity in every reachable state), sort_any (any correct qsort), getline_all "
+      "(getline loop = the newline-separated lines), readFd_complete (the whole stream is read for every way read(2) may split it), printf_room. "
+      "Arithmetic: the six *_OVERFLOW macro bodies are translated on every run into Lean terms with explicit trap/UB outcomes; width-generic theorems show each "
+      "equals the mathematical spec, instantiated for all 15 functions. Correspondence: the real map.c/vector.c/buffer.c run in-process (ASan+UBSan) on generated "
+      "operation sequences (random and hash-colliding key families found with the real HASH_JEN, misaligned key pointers, _N variants, iteration with removal; "
+      "reserve far beyond capacity, printf at capacity boundaries, chunked read_fd via --wrap=read; malloc- and arena-backed) and are compared after every operation "
+      "with the model (results, table header, bucket chains with count/expand_mult, length and capacity) and with Python dict/list/bytes semantics; the real "
+      "fallbacks and builtins run on the boundary cross-product and a seeded sample.",
+      "Trusted: Lean kernel; the C-expression translator; __builtin_*_overflow semantics = CArith.spec (cross-checked); LP64, little endian. Pointers are modelled "
+      "as identities and lists: back pointers (prev, hh_prev) are checked on the real memory by the harness, not in the model. vsnprintf output is an input of the "
+      "buffer model. Allocation failure and the 2^31-bucket exit are not modelled. The map theorem assumes keys are inserted only while absent.",
       "DESIGN.md#c20")
 
 check("C09",
